@@ -21,6 +21,7 @@ func init() {
 			"(D4) the window is assembled on every read from the database and the live current unit — never from a cache kept across flushes. " +
 			"(D5) the rollover transaction is rolled back only on an edge where an operation returned an error, and the retention handed to the rollover is derived from state that every writer of the retention limit updates. " +
 			"(D7) serialize hands out a snapshot: none of the slices/maps of the serialized unit is the live unit's own (the snapshot is encoded and summed without the unit's lock). " +
+			"(D1, cont.) once the hour id differs from the current unit's, flush always goes on to the rollover (nothing else short-circuits it). " +
 			"Not decided: hour/window arithmetic (id - limit, first id, gaps of many hours), 'daily never exceeds totals', top-N merging.",
 		RuleText:    "Lock dominance, value identity and referrer sets on SSA, provenance of the assembled window, increment counting.",
 		Assumptions: []string{"bbolt transactions are atomic", "encoding/gob round-trips unitDB"},
@@ -64,6 +65,43 @@ func runC09(c *Ctx) {
 	f1, _, _ := core.Reach(core.Query{From: []core.Point{core.Entry(fl)}, Target: core.IsCallTo(false, "(*stats.StatsCtx).flushDB"), Avoid: lockOf("currMu", true)})
 	r.Check(!f1 && noExplicitUnlock(fl), "C09-D1", "flush-holds-unit-lock", p.FnPos(fl),
 		"the rollover (swap + persist) runs with the unit lock held for writing until it returns", "the rollover can run without the unit write lock held throughout: an update can land in a unit after it was serialised and before it is replaced (lost count)")
+	// once the hour id differs from the current unit's, the rollover is not short-circuited by anything else: the
+	// current unit keeps its hour id until it is swapped, so every entry counted meanwhile lands in the old hour
+	{
+		isUnitID := func(v ssa.Value) bool {
+			fr, _, ok := core.LoadedField(core.ResolveCellLoad(v))
+			return ok && fr.Type == "stats.unit" && fr.Field == "id"
+		}
+		gDiff, nDiff := core.CondEdges(fl, func(at core.Atom) (bool, bool) {
+			if (at.Op == token.EQL || at.Op == token.NEQ) && (isUnitID(at.Base) != isUnitID(at.Other)) {
+				return true, at.Op == token.NEQ
+			}
+			return false, false
+		})
+		rolls := func(in ssa.Instruction) bool {
+			if core.IsCallTo(false, "(*stats.StatsCtx).flushDB")(in) {
+				return true
+			}
+			if st, ok := in.(*ssa.Store); ok {
+				if fr, ok := core.FieldOfAddr(st.Addr); ok && fr.Type == "stats.StatsCtx" && fr.Field == "curr" {
+					return true
+				}
+			}
+			return false
+		}
+		var starts []core.Point
+		for e := range gDiff {
+			starts = append(starts, core.AfterEdge(e))
+		}
+		found := true
+		var trD []*ssa.BasicBlock
+		if len(starts) > 0 {
+			found, trD, _ = core.Reach(core.Query{From: starts, Target: core.IsReturn, Avoid: rolls})
+		}
+		r.Check(nDiff > 0 && !found, "C09-D1", "new-hour-always-rolls-over", p.FnPos(fl),
+			"when the hour id differs from the current unit's, flush always goes on to the rollover",
+			"flush can return although the hour has changed, without swapping the current unit: the entries counted until the next attempt are added to the old hour's unit (wrong slot, or outside the retention window after a long idle period)", p.TraceString(trD))
+	}
 	callers := callerFuncs(p, fdb)
 	r.Check(len(callers) == 1 && callers[0] == fl, "C09-D1", "flushDB-only-from-flush", p.FnPos(fdb), "flushDB is called only by flush (under the locks)", fmt.Sprintf("flushDB is called from %d places", len(callers)))
 	// the unit handed to flushDB is the current one read under the lock
